@@ -19,7 +19,7 @@
 (***************************************************************************)
 EXTENDS DataDriven
 
-VARIABLES cfg, T, files, grown, top, extended, steps, hist, tid, l, doneJobs
+VARIABLES cfg, T, files, grown, top, extended, progress, steps, hist, tid, l, doneJobs
 P == INSTANCE Pipeline WITH MaxI <- 1000, MaxN <- 1000, MaxC <- 1000,
                              MaxT <- 100000, MaxSteps <- 100000,
                              MinN <- 1, MinC <- 1
@@ -34,6 +34,7 @@ Init == /\ tid \in 1..NRecs
         /\ grown = {}
         /\ top = [t \in 0..(cfg.N * cfg.C - 1) |->
                     P!Runs([I |-> cfg.I, N |-> cfg.N, C |-> cfg.C, T |-> T], t)]
+        /\ progress = [t \in 0..(cfg.N * cfg.C - 1) |-> P!NoLog]
         /\ extended = FALSE /\ steps = 0 /\ hist = <<>>
         /\ doneJobs = {}
 
@@ -77,6 +78,8 @@ Notes(e) ==
       THEN {"result_files_differ_from_Pipeline_tla"} ELSE {})
 \cup (IF o.analysis # o.totals \/ o.analysisb # o.totalsb
       THEN {"analysis_n_trials_differ_from_the_result_files"} ELSE {})
+\cup (IF \E t \in P!Tasks : o.progress[t + 1] # progress[t]
+      THEN {"progress_logs_differ_from_Pipeline_tla"} ELSE {})
 \cup (IF extended /\ doneJobs = 1..cfg.N /\ \E i \in Inputs : o.totals[i + 1] # T
       THEN {"after_an_extension_the_totals_differ_from_the_new_request"} ELSE {})
 
